@@ -1,6 +1,7 @@
 import ChipFiring.Properties.C10Base
 import ChipFiring.Theory.Parking
 import ChipFiring.Theory.SSCount
+import ChipFiring.Theory.DetPos
 import ChipFiring.Theory.Pollak
 /-
   C10, continued: the two counting clauses that tie the configuration logic, the Laplacian and
@@ -48,5 +49,16 @@ theorem parking_count_all (m : Nat) (hm : 1 ≤ m) :
 /-- Cayley: the reduced Laplacian of K_n has determinant n^(n−2) -/
 theorem complete_reduced_det (G : Graph n) (hK : IsComplete G) (hn : 2 ≤ n) (q : Fin n) :
     (redLap G q).det = (n : Int) ^ (n - 2) := det_complete G q hK hn
+
+/-- the reduced Laplacian of a connected multigraph is positive definite, so its determinant is
+    positive and the matrix-tree count holds as an equality of integers, without absolute value -/
+theorem superstable_count_eq_det_exact (G : Graph n) (hG : G.WF) (hc : G.Connected) (hn : 0 < n) (q : Fin n) :
+    (((boxConfigs (vtilde q) (fun v => G.rowSum v)).filter fun c => isSuperstable G q c).length : Int)
+      = detRows (n + 1) ((vtilde q).map fun v => (vtilde q).map fun w => lapEntry G v w) := by
+  rw [CF.superstable_count_eq_det G q hG hc hn, detRows_red G q hG]
+  exact Int.natAbs_of_nonneg (le_of_lt (redLap_det_pos G q hG hc))
+
+theorem reduced_det_pos (G : Graph n) (hG : G.WF) (hc : G.Connected) (q : Fin n) : 0 < (redLap G q).det :=
+  redLap_det_pos G q hG hc
 
 end CF.C10
